@@ -345,6 +345,28 @@ func moSortedBeforeUse(c *Ctx, p *packages.Package, target string, rest []ast.St
 		if pk == nil || (pk.Name != "sort" && pk.Name != "slices") || len(call.Args) < 1 {
 			return "is used before being sorted", false
 		}
+		// sort.Sort(sort.Reverse(sort.StringSlice(x))): the standard library's
+		// total orders on strings/ints/floats, possibly reversed
+		if pk.Name == "sort" && (sel.Sel.Name == "Sort" || sel.Sel.Name == "Stable") && len(call.Args) == 1 {
+			arg := call.Args[0]
+			rev := ""
+			if c1, ok := arg.(*ast.CallExpr); ok && len(c1.Args) == 1 {
+				if s1, ok := c1.Fun.(*ast.SelectorExpr); ok {
+					if p1, _ := s1.X.(*ast.Ident); p1 != nil && p1.Name == "sort" && s1.Sel.Name == "Reverse" {
+						arg, rev = c1.Args[0], "sort.Reverse of "
+					}
+				}
+			}
+			if c2, ok := arg.(*ast.CallExpr); ok && len(c2.Args) == 1 {
+				if s2, ok := c2.Fun.(*ast.SelectorExpr); ok {
+					if p2, _ := s2.X.(*ast.Ident); p2 != nil && p2.Name == "sort" && (s2.Sel.Name == "StringSlice" || s2.Sel.Name == "IntSlice" || s2.Sel.Name == "Float64Slice") {
+						if id, ok := c2.Args[0].(*ast.Ident); ok && id.Name == target {
+							return "sort." + sel.Sel.Name + " with " + rev + "sort." + s2.Sel.Name + " (total)", true
+						}
+					}
+				}
+			}
+		}
 		if a0, ok := call.Args[0].(*ast.Ident); !ok || a0.Name != target {
 			return "is used before being sorted", false
 		}
